@@ -1,7 +1,8 @@
 (* C05T - TUP attribute codec and packet-level pack / unpack (serves C03, C05, C06): statements only. *)
 From Coq Require Import List NArith ZArith.
 From TarsV Require Import Gen.Consts Codec.Wire Codec.Skip Codec.Prim Codec.GenCodec Frame.Framing
-  Codec.Tup Codec.Packet Codec.TupProofs Codec.PacketProofs.
+  Codec.Tup Codec.Packet Codec.TupCorr Codec.TupProofs Codec.PacketProofs.
+(* (TupCorr: the correspondence evaluated on every run is part of this file's closure, so it is rebuilt with it) *)
 Import ListNotations.
 Open Scope N_scope.
 
@@ -129,3 +130,15 @@ Theorem C05T_tup_nothing_made_up : forall (bs : list N) (kv : list N * list N),
   In kv (t_ins (tup_decode bs)) -> exists a b c, bs = a ++ fst kv ++ b ++ snd kv ++ c.
 Proof. exact tup_nothing_made_up. Qed.
 Print Assumptions C05T_tup_nothing_made_up.
+
+(* ---- the server's InvokeTimeout: slice panic exactly below the header size; its reply is a full packet ---- *)
+Theorem C05T_invoke_timeout_short : forall (e : env) (req_sid rsp_sid : nat) (tup_version : Z) (pkg : list N),
+  (length pkg < 4)%nat -> invoke_timeout e req_sid rsp_sid tup_version pkg = DPanic site_slice_bounds.
+Proof. exact invoke_timeout_short. Qed.
+Print Assumptions C05T_invoke_timeout_short.
+Theorem C05T_invoke_timeout_reply : forall (e : env) (req_sid rsp_sid : nat) (tup_version : Z) (max : N) (pkg reply r more : list N),
+  invoke_timeout e req_sid rsp_sid tup_version pkg = DOk reply r ->
+  N.of_nat (length reply) < 4294967296 -> N.of_nat (length reply) <= max ->
+  hdr (reply ++ more) = Some (N.of_nat (length reply)) /\ tars_request max (reply ++ more) = Full (length reply).
+Proof. exact invoke_timeout_reply. Qed.
+Print Assumptions C05T_invoke_timeout_reply.
